@@ -250,7 +250,9 @@ Walk(hs, i, wrap, s, F) ==
        [] h \in {"dict", "list", "tuple"} -> cont("compiled")        \* py__simple_getitem__: exact builtin type -> obj[index]
        [] OTHER ->  \* "lsub": only as last holder
             IF wrap = "mixed" THEN "none"                             \* tree value of the subclass; nothing without stubs
-            ELSE IF s.mode = "unsafe" THEN "exact" ELSE "union"       \* safe: refused -> py__getitem__all_values (all items)
+            ELSE IF s.mode = "unsafe" THEN "exact"
+            \* safe: refused -> py__getitem__all_values: all items of the subclass [D5: isinstance gate]
+            ELSE IF "D5" \in F THEN "none" ELSE "union"
 PathRes(s, F) ==
   Walk(s.path, 1, IF s.src = "file" /\ FileBacked(s.path[1]) THEN "mixed" ELSE "compiled", s, F)
 
